@@ -600,7 +600,7 @@ func report(p Prop, tier string, seed int64, all []CaseResult, inconclusive []st
 		}
 		if w, ok := witnessed[f.ID]; ok {
 			known[f.ID]++
-			fmt.Printf("KNOWN-FINDING: property=%s %s (%s; pinned witness %s still fails: %s)\n", p.ID(), f.What, f.ID, f.Witness, w)
+			fmt.Printf("KNOWN-FINDING: property=%s %s (%s; pinned witness %s still fails: %s)\n", p.ID(), f.What, f.ID, f.Witness, strings.ReplaceAll(w, "\n", " / "))
 		} else if known[f.ID] > 0 {
 			fmt.Printf("KNOWN-FINDING: property=%s %s (%s; seen %d times this run)\n", p.ID(), f.What, f.ID, known[f.ID])
 		}
